@@ -173,6 +173,12 @@ func (c *compressor) compressZstd(uncompressed []byte) (compressed []byte, err e
 // decompressZstd decompress the given data using the zstd algorithm
 func (c *compressor) decompressZstd(compressed []byte) (decompressed []byte, err error) {
 
+	// compressZstd never produces an empty output (an empty payload is a 9-byte frame);
+	// DecodeAll would accept zero frames and report empty data with a nil error.
+	if len(compressed) == 0 {
+		return nil, io.ErrUnexpectedEOF
+	}
+
 	r := bytes.NewReader(compressed)
 	zstdDecoder, err := zstd.NewReader(r)
 	if err != nil {
